@@ -339,12 +339,15 @@ def run(ctx):
         'tag protocol agreement between gen_print_stmt and _exec_print',
         'printed text is a function of the popped items only',
         'both branches guard "ends with a separator" alike; zone constant',
+        'one tagged entry per PRINT item, in order (emission interpreter)',
     ]
     ctx.not_decided = ['zone arithmetic results and number text for '
                        'concrete values']
     f = tag_protocol(ctx)
     purity(ctx, f)
     line_end_guards(ctx, f)
+    from .. import gensim
+    gensim.check_print_items(ctx, 'C17')
     return ('Emitter/consumer agreement of the PRINT argument protocol '
             '(tags, cells per tag, count), an effects rule on '
             'TerminalDevice._exec_print (reads only its arguments, writes '
